@@ -7,12 +7,16 @@
    result is non-empty; white space survives trimming only in data: values.  At the fifteen
    positions the URL pass keeps an attribute only with that value (src: the rewriter's result);
    the position tables are regenerated from sanitize.go and checked against the property text.
+   For the list sanitizeAttrs RETURNS (C03_final_list): at a URL position (the element's URL
+   attribute, URL checking on) every surviving attribute carries validURL's result for an attribute
+   that passed the filtering loop -- for src with a rewriter installed, the rewriter's result of it;
+   no later pass (rel/target, crossorigin, sandbox) touches it, and no unchecked copy survives.
    Missing: "a browser resolves it to that scheme" needs the link between Go's parser and the
    WHATWG scheme extraction (hypotheses U2-U4 of DESIGN.md 3.5); it is monitored on every URL the
    oracle sees and checked on the output by the implementation-side oracle. *)
 From Coq Require Import List NArith Bool.
 Import ListNotations.
-From BM Require Import Bytes Strings Tokenizer Policy Url Attrs GenTables Forced TablesInst AttrsSound.
+From BM Require Import Bytes Strings Tokenizer Policy Url Attrs GenTables Forced TablesInst AttrsSound AttrProvenance.
 
 Section C03.
   Variables M U R : Type.
@@ -39,6 +43,26 @@ Section C03.
     | None => [a]
     end.
   Proof. exact (url_pass_attr_spec I p). Qed.
+
+  (* the list sanitizeAttrs returns, at a URL position *)
+  Theorem C03_final_list : forall elem attrs aps k a,
+    linkable elem = true -> requireParseableURLs p = true -> url_attr_of elem = Some k ->
+    forced_key k = false ->
+    In a (sanitize_attrs I p elem attrs aps) -> key_is k a = true ->
+    exists raw u, valid_url I p raw = Some u /\
+      aval a = (if beqb k (B"src") then match srcRewriter p with Some f => rewrite I f u | None => u end else u).
+  Proof.
+    intros elem attrs aps k a Hl Hp Hk Hnf Hin Hka.
+    destruct (sanitize_attrs_provenance I p elem attrs aps a Hin) as [Hf|(a0 & a1 & _ & _ & [[-> Hnc]|[_ Hrw]])].
+    - exfalso. unfold key_is in Hka. apply beqb_eq in Hka. rewrite Hka in Hf. congruence.
+    - exfalso. unfold url_checked in Hnc. rewrite Hl, Hp, Hk, Hka in Hnc. discriminate.
+    - destruct Hrw as (_ & _ & k' & u & Hk' & _ & Hv & ->). rewrite Hk in Hk'. inversion Hk'; subst k'.
+      exists (aval a1), u. split; [exact Hv | reflexivity].
+  Qed.
+
+  (* href, cite and src are not among the keys the sanitiser forces *)
+  Example C03_url_keys_not_forced : forced_key (B"href") = false /\ forced_key (B"cite") = false /\ forced_key (B"src") = false.
+  Proof. vm_compute. auto. Qed.
 End C03.
 
 (* every one of the fifteen positions of the property text is gated by linkable() and listed in the URL switch *)
@@ -49,4 +73,5 @@ Proof. exact url_positions_covered. Qed.
 
 Print Assumptions C03_gate_partial.
 Print Assumptions C03_url_pass.
+Print Assumptions C03_final_list.
 Print Assumptions C03_positions.
